@@ -22,6 +22,10 @@ class RefAGP:
         self.M_hist = []       # M after each trial
         self.m_grew = 0
         self.opt_changed = 0
+        # memo of the characteristics: a characteristic is a function of (x_l, x_r, z_l, z_r, M, z*) only, so the list
+        # is recomputed from scratch whenever M or z* changed and otherwise only for the two intervals a new trial made
+        self._R = None
+        self._Rkey = None
 
     def hold(self, a, b):
         return math.pow(b - a, 1.0 / self.N)
@@ -30,6 +34,9 @@ class RefAGP:
         i = bisect.bisect_left(self.xs, x)
         self.xs.insert(i, x)
         self.zs.insert(i, z)
+        if self._R is not None:
+            # interval i (ending at the old right neighbour) is replaced by intervals i and i+1
+            self._R[i - 1:i] = [None, None]
         for j in (i, i + 1):
             zl, zr = self.zs[j - 1], self.zs[j]
             if zl is not None and zr is not None:
@@ -59,7 +66,15 @@ class RefAGP:
         return 2 * D - 4 * (z - self.zstar) / rM
 
     def chars(self):
-        return [self.char(j) for j in range(1, len(self.xs))]
+        key = (self.M, self.zstar)
+        if self._R is None or self._Rkey != key or len(self._R) != len(self.xs) - 1:
+            self._R = [self.char(j) for j in range(1, len(self.xs))]
+            self._Rkey = key
+        else:
+            for k, v in enumerate(self._R):
+                if v is None:
+                    self._R[k] = self.char(k + 1)
+        return self._R
 
     def formula(self, j):
         xl, xr = self.xs[j - 1], self.xs[j]
